@@ -15,6 +15,10 @@ Definition representable (fd : fdef) (v : bytes) : bool :=
   negb (existsb (fun c => (c =? COMMA) || (c =? NL) || (c =? DOLLAR) || (c =? 0)) v) &&
   (fd_optional fd || match v with [] => false | _ => true end).
 
+(* integer fields hold any 64-bit value (documented; not taken from the source) *)
+Definition i64_min : Z := (-9223372036854775808)%Z.
+Definition i64_max : Z := 9223372036854775807%Z.
+
 (* the typed value a key=value argument denotes, if any *)
 Definition denote (kv : bytes) : option (fdef * value) :=
   match split_eq kv with
@@ -25,7 +29,7 @@ Definition denote (kv : bytes) : option (fdef * value) :=
       | Some fd =>
           match fd_type fd with
           | FStr => if representable fd v then Some (fd, VStr v) else None
-          | FInt => match strtonum int_min int_max v with
+          | FInt => match strtonum i64_min i64_max v with
                     | NumOk z => Some (fd, VInt z)
                     | _ => None
                     end
@@ -48,7 +52,7 @@ Definition default_record : record :=
   map (fun fd => if fd_optional fd
                  then match fd_type fd with
                       | FStr => Some (VStr (fd_default fd))
-                      | FInt => match strtonum int_min int_max (fd_default fd) with
+                      | FInt => match strtonum i64_min i64_max (fd_default fd) with
                                 | NumOk z => Some (VInt z) | _ => None end
                       end
                  else None) fields.
